@@ -68,7 +68,7 @@ PROPS = {
     "C08": dict(bin="c08", oracle=True,
                 legs={"quick": [N], "thorough": [N]},
                 gates=[("counter_min", "lanes_compared_under_perturbation", 300),
-                       ("counter_min", "zero_lane_cases", 5),
+                       ("counter_min", "zero_lane_cases", 5), ("counter_min", "zero_block_gate_rows", 1000),
                        ("hist_keys_min", "lane_shape_class", 4), ("hist_keys_min", "strategy", 3),
                        ("nontrivial_min", 100)],
                 assumptions=["bit-identity with a per-lane interpolator is observed, not required"]),
@@ -79,7 +79,8 @@ PROPS = {
                 assumptions=["bracket = harness linear scan (x[i] <= q < x[i+1], end intervals outside)"]),
     "C12": dict(bin="c12", oracle=False, exhaustive=True,
                 legs={"quick": [N], "thorough": [N]},
-                gates=[("counter_min", "nan_vectors", 1500), ("hist_keys_min", "expected_class", 5)],
+                gates=[("counter_min", "nan_vectors", 1500), ("hist_keys_min", "expected_class", 5),
+                       ("counter_min", "signed_zero_tie_classifications", 10000), ("counter_min", "builder_clause_long_axes", 8000)],
                 assumptions=["reference classifier: counts of <, =, > among consecutive pairs",
                              "exhaustive up to 9 (quick) / 12 (thorough) pairs; longer vectors sampled"]),
     "C11": dict(bin="c11", oracle=False, exhaustive=True,
@@ -92,7 +93,7 @@ PROPS = {
     "C10": dict(bin="c10", oracle=False, exhaustive=True,
                 legs={"quick": [N], "thorough": [N]},
                 gates=[("counter_min", "rows_1d", 5000), ("counter_min", "rows_2d", 5000),
-                       ("counter_min", "constructor_only_rows", 10),
+                       ("counter_min", "constructor_only_rows", 10), ("counter_min", "long_axis_rows", 30000),
                        ("hist_keys_min", "violated_requirement", 6), ("hist_keys_min", "error_kind", 4)],
                 assumptions=["independent validator states which requirements are violated; an error kind is "
                              "accepted if it belongs to some violated requirement (messages are not compared)"]),
@@ -100,6 +101,7 @@ PROPS = {
                 legs={"quick": [N],
                       "thorough": [N, MIRI(0.001), ASAN(0.05), VALGRIND(0.01)]},
                 gates=[("counter_min", "elements_compared", 5000), ("counter_min", "placement_elements_checked", 5000),
+                       ("counter_min", "signed_zero_query_batches", 100),
                        ("counter_min", "empty_queries", 10), ("counter_min", "combined_rank_above_6", 10),
                        ("counter_min", "zero_length_trailing_axis_cases", 5), ("counter_min", "array_into_compared", 300),
                        ("hist_keys_min", "query_kind", 6)],
@@ -115,6 +117,7 @@ PROPS = {
                 legs={"quick": [N],
                       "thorough": [N, ASAN(0.05), VALGRIND(0.01), MIRI(0.0008)]},
                 gates=[("counter_min", "ok_fully_written_checked", 1000), ("counter_min", "wrong_buffers_rejected", 5000),
+                       ("counter_min", "batch_length_sweep_cases", 1000),
                        ("counter_min", "wrong_buffers_rejected_same_count", 500),
                        ("counter_min", "windows_with_leading_and_trailing_slack", 500),
                        ("counter_min", "xy_shape_mismatch_rejected", 100),
@@ -125,6 +128,7 @@ PROPS = {
                 legs={"quick": [N],
                       "thorough": [N, MIRI(0.0015)]},
                 gates=[("counter_min", "user_build_invocations", 200), ("counter_min", "builder_rows", 2000),
+                       ("counter_min", "long_axis_rows", 30000),
                        ("counter_min", "strategy_calls_checked", 3000), ("counter_min", "target_placements_checked", 1000),
                        ("counter_min", "injected_interp_errors", 1000), ("counter_min", "injected_build_errors", 100),
                        ("counter_min", "index_point_checked", 500), ("hist_keys_min", "declared_minimum", 10)],
@@ -181,7 +185,7 @@ TEXT = {
               "tolerance 64*2^-52*Z (three nested two-point formulas), 80 / 128 for the relations",
               "runtime monitoring: " + _ORACLE + " + in-process differential relations"),
     "C05": _t("In-process monitor over every strategy x entry point x edge query (ends, 1-2 ulps either side, +-inf, NaN, +-MAX) and "
-              "one bad element at every position of every batch shape; oracle is the closed-range predicate on the harness's copy of the axis.",
+              "one bad element at every position of every batch shape, data with 0..2 trailing axes incl. zero-length ones; oracle is the closed-range predicate on the harness's copy of the axis.",
               "observation gate: every (strategy family, entry point) seen accepting and rejecting",
               "runtime monitoring: in-process assertion against a shadow predicate, outcome classification via catch_unwind"),
     "C06": _t("With extrapolation on: every finite query answered, in-range results bit-identical to the non-extrapolating interpolator "
@@ -192,17 +196,17 @@ TEXT = {
               "spline at the exactly wrapped float query, with a Lipschitz-aware bound for the rounding of the wrapped argument.",
               "bound = spline tolerance + (2L + ...)*delta with exact L >= |S'| and delta = rounding of q-x0, k x rounding of the period, 4u(|q-x0|+|x0|+P); wrap in exact rationals; queries up to 2^1000 away, judged up to about 2^49 periods; 8 threads repeating far queries on a shared spline",
               "runtime monitoring: " + _ORACLE + " (exact wrap + exact periodic spline)"),
-    "C08": _t("For a random lane j of n-d data (0..5 trailing axes, zero-length and non-square shapes, per-lane boundaries) results must "
+    "C08": _t("For a random lane j of n-d data (0..6 trailing axes, zero-length and non-square shapes, per-lane boundaries) results must "
               "not change in any bit when every other lane is replaced by NaN/inf/huge/random values and other boundaries are re-drawn; "
-              "lane j is also checked as a single-lane problem by the exact oracle.",
+              "lane j is also checked as a single-lane problem by the exact oracle; zero-block gate: an exactly-zero lane with every ordered pair of end conditions, neighbours zero / non-zero.",
               "bit-identity with a per-lane interpolator is observed and reported, not required",
               "runtime monitoring: in-process bitwise differential under perturbation + exact oracle per lane"),
     "C09": _t("Bitwise agreement of interp_array / interp / interp_scalar / *_into and the shape law over every query dimension type "
-              "(Ix0..Ix4, dynamic, empty) and data Ix1..Ix6/IxDyn; placement probed with a recording user strategy that writes f(x, lane).",
+              "(Ix0..Ix4, dynamic, empty) and data Ix1..Ix6/IxDyn; placement probed with a recording user strategy that writes f(x, lane); batches with runs of -0.0 / +0.0 (equal under ==, different answers).",
               "placement code f(x, lane) is injective on the queries used",
               "runtime monitoring: in-process bitwise differential between entry points + recording strategy as placement probe"),
     "C10": _t("The full decision table is enumerated (strategy x rank x length x axis length x order pattern x boundary array shape x "
-              "periodic ends x (2-D) x and y independently, ~25k rows): Ok iff an independent validator finds no violated requirement, "
+              "periodic ends x (2-D) x and y independently, ~34k rows incl. signed-zero ties; plus axes of 512..1025 knots with one defect at every position, ~34k rows): Ok iff an independent validator finds no violated requirement, "
               "otherwise an error kind belonging to a violated requirement; never a panic.",
               "error messages are not compared; statically rank-deficient data can only be constructed (must not panic)",
               "runtime monitoring: enumerated decision table against an independent validator (shadow model)"),
@@ -211,7 +215,7 @@ TEXT = {
               "oracle = std partition_point cross-checked by linear scan; precondition span and (len-1)/span finite",
               "runtime monitoring: in-process comparison with an independent search; bounded-exhaustive + random"),
     "C12": _t("monotonic_prop on every relation word up to 9 (quick) / 12 (thorough) pairs, four element types, strided and reversed views, "
-              "every NaN placement in vectors up to length 8, random long vectors, against an independent classifier.",
+              "every NaN placement in vectors up to length 8, random long vectors, ties also realised as -0.0 / +0.0, against an independent classifier; the builder clause on short axes and on axes of 512..1025 knots with one defect at every position.",
               "exhaustive up to the stated bound (sufficient to separate automata of <= 7 states); longer vectors sampled",
               "runtime monitoring: exhaustive enumeration against an independent classifier"),
     "C13": _t("Differential against the all-owned C-order baseline: each argument (data, x, y, queries, buffers, storage kind) is "
@@ -219,7 +223,7 @@ TEXT = {
               "storage kinds of data/axes instantiated for f64 data Ix2/IxDyn (1-D), Ix3/IxDyn (2-D); query storage kinds on concrete types",
               "runtime monitoring: in-process bitwise differential across memory layouts and ownership"),
     "C14": _t("Buffers are windows into a sentinel-filled allocation: after Ok no sentinel inside, contents equal the allocating variant, "
-              "every element outside unchanged; every wrong shape (axis +-1, permutations, same count, rank +-1) and x/y shape mismatch must panic.",
+              "every element outside unchanged; every wrong shape (axis +-1, permutations, same count, rank +-1) and x/y shape mismatch must panic; sweep over every rank-1 batch length 1..640 (thorough 1..4200).",
               "sentinel = NaN payload no computation on finite data can produce; sanitizer legs add out-of-allocation / uninitialised reads",
               "runtime monitoring: sentinel windows + outcome classification; AddressSanitizer / memcheck / Miri legs in the thorough tier"),
     "C15": _t("Exact unit changes (data*2^j, axis*2^k with converted derivative values, negation, dyadic-grid shifts, independent x/y factors) "
